@@ -81,6 +81,7 @@ type CoqCase struct {
 
 // CoqVerdict is what the model said about one case.
 type CoqVerdict struct {
+	Unmodelled string
 	Agree bool
 	Tags  []string
 	Pred  any // only when !Agree
@@ -88,12 +89,12 @@ type CoqVerdict struct {
 
 // CoqRun evaluates `run_case <fn>` on every case (model prediction compared with the observation
 // inside Coq by json_eqb) and returns the verdicts.
-func CoqRun(workdir, name, imports, defs, fn string, cases []CoqCase, par int) ([]CoqVerdict, error) {
+func CoqRun(workdir, name, imports, defs, caseType, fn string, cases []CoqCase, par int) ([]CoqVerdict, error) {
 	terms := make([]string, len(cases))
 	for i, c := range cases {
 		terms[i] = "(" + c.Term + ",\n   " + CoqJSON(Canon(c.Obs)) + ")"
 	}
-	raws, err := CoqEval(workdir, name, imports+"\n"+defs, "(run_case "+fn+")", terms, par)
+	raws, err := CoqEval(workdir, name, imports+"\n"+defs, "list ("+caseType+" * json)", "(run_case "+fn+")", terms, par)
 	if err != nil {
 		return nil, err
 	}
@@ -106,6 +107,13 @@ func CoqRun(workdir, name, imports, defs, fn string, cases []CoqCase, par int) (
 		m, ok := v.(map[string]any)
 		if !ok {
 			return nil, fmt.Errorf("bad verdict %s", string(raw))
+		}
+		if u, ok := m["unmodelled"].(string); ok {
+			out[i].Unmodelled = u
+			if u == "" {
+				out[i].Unmodelled = "unmodelled"
+			}
+			continue
 		}
 		out[i].Agree, _ = m["agree"].(bool)
 		if ts, ok := m["tags"].([]any); ok {
@@ -178,7 +186,7 @@ func coqJSON(b *strings.Builder, v any) {
 	}
 }
 
-func CoqEval(workdir, name, imports, fn string, cases []string, par int) ([]json.RawMessage, error) {
+func CoqEval(workdir, name, imports, listType, fn string, cases []string, par int) ([]json.RawMessage, error) {
 	if len(cases) == 0 {
 		return nil, nil
 	}
@@ -226,7 +234,7 @@ func CoqEval(workdir, name, imports, fn string, cases []string, par int) ([]json
 			file := filepath.Join(workdir, mod+".v")
 			var b strings.Builder
 			b.WriteString(imports)
-			b.WriteString("\nDefinition cases := [\n  ")
+			b.WriteString("\nDefinition cases : " + listType + " := [\n  ")
 			b.WriteString(strings.Join(cases[sh.lo:sh.hi], ";\n  "))
 			b.WriteString("\n].\nEval vm_compute in render_lines (map " + fn + " cases).\n")
 			if err := os.WriteFile(file, []byte(b.String()), 0o644); err != nil {
